@@ -1,4 +1,4 @@
 #!/bin/sh
 # usage: tlc.sh <metadir> <args...>   (run from the directory holding the root module)
 md="$1"; shift
-exec java -XX:+UseParallelGC ${TLC_JAVA_OPTS:-} -DTLA-Library=/verif/spec:/verif/spec/mc:/verif/spec/trace:/verif/spec/gen -cp /opt/veriftools/tla/tla2tools.jar:/opt/veriftools/tla/CommunityModules-deps.jar tlc2.TLC -metadir "$md" -cleanup -noGenerateSpecTE "$@"
+exec java -XX:+UseParallelGC ${TLC_JAVA_OPTS:-} -DTLA-Library=/verif/spec:/verif/spec/mc:/verif/spec/trace:/verif/spec/proofs:/opt/veriftools/tlapm/lib/tlapm/stdlib -cp /opt/veriftools/tla/tla2tools.jar:/opt/veriftools/tla/CommunityModules-deps.jar tlc2.TLC -metadir "$md" -cleanup -noGenerateSpecTE "$@"
